@@ -56,7 +56,7 @@ class Flavour:
             inner = self.ty(k[4:])
             return f"Option ({inner})" if " " in inner else f"Option {inner}"
         return {"real": self.real, "bool": "Prop" if self.R else "Bool", "vec": f"List {self.real}",
-                "int": "ℕ" if self.R else "Nat",
+                "int": "ℕ" if self.R else "Nat", "zint": "ℤ" if self.R else "Int",
                 "fn": f"{self.real} → {self.real}", "fnb": f"{self.real} → " + ("Prop" if self.R else "Bool")}[k]
 
     def lit(self, v):
@@ -191,6 +191,19 @@ class FnTx:
                     return (f"({a} ^ {b})" if fl.R else f"(Gen.fpowi {a} {b})"), "real"
                 self.err(n, "power kinds")
             b, kb = self.tx(n.right)
+            # machine integers (`zint`: pointer / size arithmetic): + - * with Python's floor `%` and `//`
+            if "zint" in (ka, kb):
+                a, ka = self.as_zint(n.left, a, ka)
+                b, kb = self.as_zint(n.right, b, kb)
+                if ka == "zint" and kb == "zint":
+                    zop = {ast.Add: "+", ast.Sub: "-", ast.Mult: "*"}.get(type(n.op))
+                    if zop:
+                        return f"({a} {zop} {b})", "zint"
+                    if isinstance(n.op, ast.Mod):
+                        return f"(Int.fmod {a} {b})", "zint"
+                    if isinstance(n.op, ast.FloorDiv):
+                        return f"(Int.fdiv {a} {b})", "zint"
+                self.err(n, f"integer arithmetic on kinds {ka}, {kb}")
             op = {ast.Add: "+", ast.Sub: "-", ast.Mult: "*", ast.Div: "/"}.get(type(n.op))
             if op is None:
                 self.err(n, "binary operator")
@@ -206,6 +219,11 @@ class FnTx:
                 return fl.not_(a), "bool"
             if ka == "real" and kb == "real" and opn in ("Eq", "NotEq", "Lt", "LtE", "Gt", "GtE"):
                 return fl.cmp(opn, a, b), "bool"
+            if "zint" in (ka, kb):
+                a, ka = self.as_zint(n.left, a, ka)
+                b, kb = self.as_zint(n.comparators[0], b, kb)
+                if ka == "zint" and kb == "zint":
+                    return fl.cmp(opn, a, b), "bool"
             self.err(n, f"comparison kinds {ka} {kb}")
         if isinstance(n, ast.BoolOp):
             parts = [self.tx(v) for v in n.values]
@@ -237,6 +255,18 @@ class FnTx:
         if isinstance(n, ast.Call):
             return self.call(n)
         self.err(n, "expression")
+
+    def as_zint(self, node, text, kind):
+        """integer literals and booleans take part in integer arithmetic (`x + bool(flag)`, `max(x, 1)`)"""
+        zt = "ℤ" if self.fl.R else "Int"
+        if kind == "zint":
+            return text, kind
+        if isinstance(node, ast.Constant) and isinstance(node.value, int) and not isinstance(node.value, bool):
+            v = node.value
+            return (f"({v} : {zt})" if v >= 0 else f"(-{-v} : {zt})"), "zint"
+        if kind == "bool":
+            return f"(if {text} then (1 : {zt}) else (0 : {zt}))", "zint"
+        return text, kind
 
     def where(self, cond, a, b, node):
         (c, kc), (x, kx), (y, ky) = cond, a, b
@@ -274,6 +304,35 @@ class FnTx:
                 if ka != "real":
                     self.err(n, f"{fname} of {ka}")
                 return g(a), "real"
+            if fname == "int" and len(n.args) == 1:
+                a, ka = self.tx(n.args[0])
+                if ka == "zint":
+                    return a, "zint"
+                if ka == "real":      # truncation toward zero
+                    return ((f"(if {a} ≥ 0 then ⌊{a}⌋ else ⌈{a}⌉)" if fl.R else f"(Gen.ftrunc {a})"), "zint")
+                self.err(n, f"int() of {ka}")
+            if fname == "bool" and len(n.args) == 1:
+                a, ka = self.tx(n.args[0])
+                if ka == "bool":
+                    return a, "bool"
+                self.err(n, f"bool() of {ka}")
+            if fname in ("ceil", "floor") and len(n.args) == 1:
+                a, ka = self.tx(n.args[0])
+                if ka != "real":
+                    self.err(n, f"{fname} of {ka}")
+                if fl.R:
+                    return (f"⌈{a}⌉" if fname == "ceil" else f"⌊{a}⌋"), "zint"
+                return f"(Gen.f{fname} {a})", "zint"
+            if fname in ("max", "min") and len(n.args) == 2 and isinstance(f, ast.Name):
+                (a, ka), (b, kb) = self.tx(n.args[0]), self.tx(n.args[1])
+                if "zint" in (ka, kb):
+                    a, ka = self.as_zint(n.args[0], a, ka)
+                    b, kb = self.as_zint(n.args[1], b, kb)
+                    if ka == "zint" and kb == "zint":
+                        return f"({fname} {a} {b})", "zint"
+                if ka == "real" and kb == "real":
+                    return (fl.max(a, b) if fname == "max" else fl.min(a, b)), "real"
+                self.err(n, f"{fname} of kinds {ka}, {kb}")
             if fname == "where":
                 return self.where(self.tx(n.args[0]), self.tx(n.args[1]), self.tx(n.args[2]), n)
             if fname in ("logical_and", "logical_or"):
@@ -332,6 +391,12 @@ class FnTx:
                 if ko == "bool":
                     return fl.ite(obj, fl.lit(1), fl.lit(0)), "real"
                 return obj, ko
+            if m == "long" and not n.args:
+                if ko == "zint":
+                    return obj, "zint"
+                if ko == "real":
+                    return ((f"(if {obj} ≥ 0 then ⌊{obj}⌋ else ⌈{obj}⌉)" if fl.R else f"(Gen.ftrunc {obj})"), "zint")
+                self.err(n, f"long() of {ko}")
             if m in ("float", "double"):
                 if ko == "bool":
                     return fl.ite(obj, fl.lit(1), fl.lit(0)), "real"
@@ -583,6 +648,8 @@ def translate_module(mod: str, item: dict) -> dict:
             info[fn] = {"source_sha": sha, "ret": rk, "order": table[fn]["order"], "params": allkinds[fn]["params"],
                         "site": fn in item.get("sites", {})}
         text += f"\nend InfernoVerif.Gen.{mod}{flv}\n"
+        if flv == "R" and ("⌈" in text or "⌊" in text):
+            text = "import Mathlib.Algebra.Order.Floor.Ring\n" + text
         outs[flv] = text
     changed = False
     GEN.mkdir(parents=True, exist_ok=True)
@@ -594,9 +661,9 @@ def translate_module(mod: str, item: dict) -> dict:
     return {"functions": info, "rewritten": changed}
 
 
-PARSE = {"real": "pReal", "bool": "pBool", "vec": "pVec", "fn": "pFn", "fnb": "pFnb",
+PARSE = {"zint": "pInt", "real": "pReal", "bool": "pBool", "vec": "pVec", "fn": "pFn", "fnb": "pFnb",
          "opt real": "pOptReal", "opt bool": "pOptBool", "opt vec": "pOptVec", "opt fn": "pOptFn"}
-SHOW = {"real": "sReal", "bool": "sBool", "vec": "sVec"}
+SHOW = {"zint": "sInt", "real": "sReal", "bool": "sBool", "vec": "sVec"}
 
 
 def emit_dispatch(all_info: dict) -> None:
